@@ -90,7 +90,7 @@ def behaviours_to_scripts(lines, rng, wrap, per_prefix=2):
 def model_check(R):
     thorough = R.tier == "thorough"
     cfg = "MCSecretStream4.cfg" if thorough else "MCSecretStream.cfg"
-    r = R.tlc("sys/MCSecretStream.tla", cfg, workers=vlib.NCPU, timeout=3000 if thorough else 600, heap="24g", coverage=False)
+    r = R.tlc("sys/MCSecretStream.tla", cfg, workers=vlib.NCPU, timeout=6000 if thorough else 600, heap="24g", coverage=False)
     if r.violated:
         R.violation("the SecretStream design model violates an invariant (specification-level): " + r.tail(30), r.out, name="model")
     R.add("states", r.distinct)
